@@ -53,5 +53,6 @@ func writeHeader(headerPath string, header Header) error {
 	if err = os.WriteFile(tmpPath, data, 0o666); err != nil {
 		return err
 	}
+	vhook.At("mh.writeheader.before-rename")
 	return os.Rename(tmpPath, headerPath)
 }
